@@ -106,6 +106,10 @@ def check_one(rep, binary, label, data, cmdname, args, env=None, wrapper=None):
         rep.count("watchdog")
         return
     family = label.split(".")[0] + ("." + ".".join(label.split(".")[1:3]) if label.startswith("deep") else "")
+    if wrapper and run.rc == 99:
+        first = next((l for l in run.err.decode("utf-8", "replace").splitlines() if l.startswith("==") and ("Invalid" in l or "uninitialised" in l or "Conditional" in l)), "report")
+        rep.violation(f"C19:cli:valgrind:{cmdname}:{re.sub(r'==[0-9]+== ', '', first)[:50]}", f"valgrind memcheck report for {' '.join(args)} on {label}: {run.err[-400:]!r}", replay)
+        return
     if run.crashed or b"AddressSanitizer" in run.err:
         cs = crash_sig(cmdname, run)
         # a located panic identifies its call site by itself; other deaths are keyed by command and input family
@@ -155,6 +159,8 @@ def run(leg, seed, tier, replay=None):
     if leg.config.startswith("asan"):
         env = {"ASAN_OPTIONS": "halt_on_error=1:abort_on_error=0:detect_leaks=0:exitcode=97:allocator_may_return_null=1"}
     wrapper = leg.args.get("wrapper")
+    if wrapper:
+        rep.note("wrapper: " + " ".join(wrapper))
     if replay is not None:
         data = bytes.fromhex(replay["data_hex"]) if replay.get("data_hex") else dict(deep_inputs(random.Random(0), "thorough"))[replay["gen"]]
         args = dict(CMDS)[replay["cmd"]]
